@@ -632,6 +632,7 @@ impl<'a> UserModel<'a> {
                 view.sheet = sheet_count - 2;
             };
         }
+        self.clamp_selected_sheet();
 
         self.push_diff_list(vec![Diff::DeleteSheet { sheet, old_data }]);
         Ok(())
